@@ -101,6 +101,7 @@ func NameSinks(p *load.Program, tb *kinds.Table, slotKinds map[string]map[string
 		res.Unknown("idiom/"+u, "-", "", "undecided:idiom: "+u)
 	}
 	res.Count("resolver-calls", len(facts))
+	im.checkResolveGuards(res)
 	bySlot := map[string][]resFact{}
 	for _, f := range facts {
 		bySlot[f.slot] = append(bySlot[f.slot], f)
@@ -1061,4 +1062,120 @@ func constSetKeys(pk *packages.Package, e ast.Expr) []string {
 		keys = append(keys, constant.StringVal(ktv.Value))
 	}
 	return keys
+}
+
+
+// checkResolveGuards: in a resolver method for a node kind, the resolution of the name in slot S may be
+// skipped only because S itself is absent. A test of another slot that stands in front of it - an early return
+// `if n.Name == nil { return }` ahead of `ResolveName(n.Extends, "")`, or `if n.Name != nil { … resolve n.Extends … }` -
+// leaves the names of exactly those nodes unresolved that lack the other slot (anonymous classes; round 7 seed
+// C14-21). Obligation per (method, slot): every condition that decides whether the call is reached mentions,
+// of the visited node's fields, only the slot that is resolved.
+func (im *Impl) checkResolveGuards(res *report.RuleResult) {
+	im.nsNorm()
+	kms, _ := im.KindMethods()
+	for _, km := range kms {
+		fd := km.Decl
+		if fd.Body == nil || len(fd.Body.List) == 0 {
+			continue
+		}
+		recv := im.recvObj(fd)
+		node := im.paramObj(fd, 0)
+		if node == nil {
+			continue
+		}
+		body := im.Body(fd)
+		// the node's fields an expression reads
+		fieldsOf := func(e ast.Node) map[string]bool {
+			out := map[string]bool{}
+			ast.Inspect(e, func(n ast.Node) bool {
+				if se, ok := n.(*ast.SelectorExpr); ok {
+					if id, ok := unparen(se.X).(*ast.Ident); ok && im.info().Uses[id] == node {
+						if sel := im.info().Selections[se]; sel != nil && sel.Kind() == types.FieldVal {
+							out[se.Sel.Name] = true
+						}
+					}
+				}
+				return true
+			})
+			return out
+		}
+		// the slots resolved by the calls under a node (through locals bound to fields: for _, x := range n.F)
+		var slotsUnder func(n ast.Node, env map[types.Object]apath) map[string]bool
+		slotsUnder = func(n ast.Node, env map[types.Object]apath) map[string]bool {
+			var fs []resFact
+			var un []string
+			e2 := map[types.Object]apath{}
+			for k, v := range env {
+				e2[k] = v
+			}
+			im.walkResolver(n, e2, recv, km.Kind.Name, &fs, &un)
+			out := map[string]bool{}
+			for _, f := range fs {
+				if i := strings.LastIndex(f.slot, "."); i >= 0 {
+					out[f.slot[i+1:]] = true
+				}
+			}
+			return out
+		}
+		env := map[types.Object]apath{node: {kind: km.Kind.Name}}
+		reported := map[string]bool{}
+		report1 := func(slot, cond, how string, at ast.Node) {
+			k := "guard/" + km.Kind.Name + "." + slot
+			if reported[k] {
+				return
+			}
+			reported[k] = true
+			res.Bad(k, im.pos(at), km.Kind.Name, fmt.Sprintf("the resolution of %s.%s %s `%s`, a test of another slot: nodes for which it fails keep the name unresolved", km.Kind.Name, slot, how, cond))
+		}
+		var walk func(list []ast.Stmt, early []ast.Expr)
+		walk = func(list []ast.Stmt, early []ast.Expr) {
+			for _, st := range list {
+				// calls in this statement are reached only if none of the earlier early exits was taken
+				under := slotsUnder(st, env)
+				for slot := range under {
+					for _, c := range early {
+						fs := fieldsOf(c)
+						for f := range fs {
+							if f != slot {
+								report1(slot, exprString(c), "is skipped by the early exit under", c)
+							}
+						}
+					}
+				}
+				if ifs, ok := st.(*ast.IfStmt); ok {
+					inBody := slotsUnder(ifs.Body, env)
+					for slot := range inBody {
+						for f := range fieldsOf(ifs.Cond) {
+							if f != slot {
+								report1(slot, exprString(ifs.Cond), "happens only under", ifs.Cond)
+							}
+						}
+					}
+					if ifs.Else != nil {
+						for slot := range slotsUnder(ifs.Else, env) {
+							for f := range fieldsOf(ifs.Cond) {
+								if f != slot {
+									report1(slot, exprString(ifs.Cond), "happens only when this fails:", ifs.Cond)
+								}
+							}
+						}
+					}
+					// an if without else whose body leaves the method
+					if ifs.Else == nil && len(ifs.Body.List) > 0 {
+						if _, isRet := ifs.Body.List[len(ifs.Body.List)-1].(*ast.ReturnStmt); isRet {
+							early = append(early, ifs.Cond)
+						}
+					}
+				}
+			}
+		}
+		walk(body.List, nil)
+		if len(slotsUnder(body, env)) > 0 {
+			res.Count("guarded-methods", 1)
+			if len(reported) == 0 {
+				res.OK("guard/"+km.Kind.Name, im.pos(fd), km.Kind.Name, "every resolution in this method is skipped only when its own slot is absent")
+			}
+		}
+	}
 }
